@@ -38,7 +38,10 @@ def run_check(pid, tier, jobs):
     seed = int(os.environ.get("VERIF_SEED", "0") or 0)
     t0 = time.time()
     chk = load_check(pid)
-    units = chk.units(tier, seed)
+    # units() runs baseline executions to find the choice points: do that in a throw-away child, so that the
+    # workers are forked from a parent in which no world has ever run
+    with mp.get_context("fork").Pool(1) as p0:
+        units = p0.apply(chk.units, (tier, seed))
     res = Result()
     errors = []
     if jobs <= 1 or len(units) <= 1:
@@ -71,6 +74,9 @@ def run_check(pid, tier, jobs):
         extra = {"vacuity_guard": vacuous, "exhaustive": False}
         if not res.violations:
             print(f"HARNESS-ERROR {pid}: vacuous exploration: {e}", file=sys.stderr)
+            if res.status.get("exception") and res.exceptions:
+                ex = res.exceptions[0]
+                print(f"HARNESS-NOTE {pid}: {res.status['exception']} execution(s) ended with an exception, first: {ex['exc']} in world {json.dumps(jsonable(ex['desc']))[:300]} dev={ex['dev']}", file=sys.stderr)
             return 3
     exhaustive = bool(
         extra.pop("exhaustive", True)
